@@ -54,6 +54,21 @@ def loop_buffer_name(test):
     return None
 
 
+def loop_comparison(test):
+    """(lesser expression, greater expression) for tests of the form  A < B,  A <= B,  B > A,  B >= A  [and ...]: an
+    index loop; B - A is the variant.  None otherwise."""
+    t = test
+    if isinstance(t, ast.BoolOp) and isinstance(t.op, ast.And):
+        t = t.values[0]
+    if isinstance(t, ast.Compare) and len(t.ops) == 1:
+        l, op, r = t.left, t.ops[0], t.comparators[0]
+        if isinstance(op, (ast.Lt, ast.LtE)):
+            return l, r
+        if isinstance(op, (ast.Gt, ast.GtE)):
+            return r, l
+    return None
+
+
 def assigned_names(stmts):
     out = set()
     for s in stmts:
@@ -66,8 +81,11 @@ def assigned_names(stmts):
 def schema_check(node):
     """every assignment to the loop buffer inside the body (nested loops included) is NAME = NAME[expr:]"""
     x = loop_buffer_name(node.test)
+    if x is None and loop_comparison(node.test) is not None:
+        a, b = loop_comparison(node.test)
+        return True, "index loop, variant (%s) - (%s)" % (ast.unparse(b)[:30], ast.unparse(a)[:30])
     if x is None:
-        return False, "loop test is not len(NAME) [>= c] [and ...]"
+        return False, "loop test is neither len(NAME) [>= c] [and ...] nor a comparison A < B"
     for s in node.body:
         for n in ast.walk(s):
             if isinstance(n, (ast.Assign, ast.AugAssign, ast.AnnAssign)):
@@ -90,24 +108,32 @@ def make_hook(target_func, target_ordinal, stats=None, capture=False, head_assum
     code = target_func.__code__
 
     def hook(frame, node):
-        if frame.f.__code__ is not code:
-            return None
         from .interp import func_ast
 
+        in_target = frame.f.__code__ is code
+        if not in_target and not getattr(frame.f, "__module__", "").startswith("pyscsi"):
+            return None
         fn_node, _ = func_ast(frame.f)
         loops = whiles_of(fn_node)
-        ordinal = next(i for i, l in enumerate(loops) if l is node)
+        ordinal = next((i for i, l in enumerate(loops) if l is node), None)
+        if ordinal is None:
+            return None
         I = frame.I
         ctx = I.ctx
         x = loop_buffer_name(node.test)
+        # a loop of another function of the package (a helper the decoder calls) is never the target: it is replaced by
+        # its summary, like a loop nested in or preceding the target (it has a variant unit of its own)
+        t_ord = target_ordinal if in_target else None
+        if x is None and loop_comparison(node.test) is not None:
+            return _index_loop(frame, node, ordinal if in_target else -1 - ordinal, t_ord, loops, stats, capture and in_target)
         if x is None:
             raise Unsupported("while loop #%d of %s is not a len(NAME) loop" % (ordinal, frame.f.__qualname__))
         import z3
 
         body_assigned = assigned_names(node.body)
-        target = loops[target_ordinal] if target_ordinal is not None else None  # None: every while is summarised
+        target = loops[t_ord] if t_ord is not None else None  # None: every while is summarised
         encloses_target = target is not None and (node is target or any(n is target for n in ast.walk(node)))
-        if not encloses_target and inner_contracts and ordinal in inner_contracts:
+        if not encloses_target and in_target and inner_contracts and ordinal in inner_contracts:
             # a loop nested in the target's body that has a functional contract (proved by its own step unit):
             # the contract computes the state after the loop from the state at its head
             inner_contracts[ordinal](frame, x)
@@ -136,10 +162,17 @@ def make_hook(target_func, target_ordinal, stats=None, capture=False, head_assum
                     frame.env[v] = _Poison(v)
             return True
         x0 = frame.env.get(x)
+        # the state the real prefix produced: the loop is entered only if its test holds there
+        if not I.truth(frame.ev(node.test)):
+            return True
         # havoc
         name = V.fresh_name("loop%d.%s" % (ordinal, x))
         n = V.sym_size(name + ".len", 1, MAXN)
         ctx.assume(V.range_constraint(n))
+        if V.is_buffer(x0):
+            # under the stride schema (every assignment to the loop buffer is X = X[k:], an obligation of its own) the
+            # buffer at the loop head is never longer than the buffer the loop was entered with
+            ctx.assume(V.compare("<=", n, V.buf_len(x0)))
         old = SBuf(z3.Array(name, z3.IntSort(), z3.BitVecSort(8)), 0, n)
         frame.env[x] = old
         for v in body_assigned:
@@ -180,7 +213,13 @@ def make_hook(target_func, target_ordinal, stats=None, capture=False, head_assum
                 if c is False:
                     # this path lies outside the precondition of the step obligation (decided on the way): nothing to prove
                     raise LoopSummarized(dict(reached=False, outside_precondition=True))
-                ctx.assume(V.bexpr(c) if isinstance(c, (V.SBool, V.SInt)) else c)
+                if c is True:
+                    continue
+                ce = V.bexpr(c) if isinstance(c, (V.SBool, V.SInt)) else c
+                if not ctx.feasible(ce):
+                    # on this path the precondition cannot hold at all (e.g. the list buffer is shorter than any descriptor)
+                    raise LoopSummarized(dict(reached=False, outside_precondition=True))
+                ctx.assume(ce)
         tv = frame.ev(node.test)
         if not I.truth(tv):
             return True  # loop exits
@@ -204,6 +243,52 @@ def make_hook(target_func, target_ordinal, stats=None, capture=False, head_assum
         return True
 
     return hook
+
+
+def _index_loop(frame, node, ordinal, target_ordinal, loops, stats, capture):
+    """`while A < B` (an index walking towards a bound): entered once in an over-approximated state -- every name the
+    body assigns is arbitrary (integers fresh, lists emptied, buffers fresh) -- the test is evaluated, the body runs
+    once; for the target loop the obligation is  (B - A)' < (B - A)  (the gap is a natural number while the loop
+    runs), other loops are left after that one iteration"""
+    import z3
+
+    I = frame.I
+    ctx = I.ctx
+    if capture:
+        # step obligations are stated for buffer-consuming loops only
+        raise LoopSummarized(dict(reached=False, noschema=True))
+    a_expr, b_expr = loop_comparison(node.test)
+    for v in assigned_names(node.body):
+        cur = frame.env.get(v, _MISSING)
+        if isinstance(cur, list):
+            frame.env[v] = []
+        elif isinstance(cur, dict):
+            frame.env[v] = {}
+        elif isinstance(cur, (int, V.SInt)) and not isinstance(cur, bool):
+            # (an index / offset: integer-sorted, so that the gap is linear integer arithmetic)
+            frame.env[v] = V.sym_size(V.fresh_name("loop%d.%s" % (ordinal, v)), 0, 1 << 32)
+            ctx.assume(V.range_constraint(frame.env[v]))
+        elif isinstance(cur, (V.SBuf, V.SBytes, bytes, bytearray)):
+            nn = V.sym_size(V.fresh_name("loop%d.%s.len" % (ordinal, v)), 0, MAXN)
+            ctx.assume(V.range_constraint(nn))
+            frame.env[v] = SBuf(z3.Array(V.fresh_name("loop%d.%s" % (ordinal, v)), z3.IntSort(), z3.BitVecSort(8)), 0, nn)
+        elif cur is not _MISSING:
+            frame.env[v] = _Poison(v)
+    if not I.truth(frame.ev(node.test)):
+        return True
+    gap0 = V.arith("-", frame.ev(b_expr), frame.ev(a_expr))
+    try:
+        frame.exec_block(node.body)
+    except _Break:
+        return True
+    except _Continue:
+        pass
+    if ordinal == target_ordinal:
+        gap1 = V.arith("-", frame.ev(b_expr), frame.ev(a_expr))
+        if stats is not None:
+            stats["reached"] = stats.get("reached", 0) + 1
+        raise LoopSummarized(dict(reached=True, variant=V.compare("<", gap1, gap0), old_len=gap0, new_len=gap1))
+    return True
 
 
 def make_for_hook(target_func):
